@@ -571,8 +571,9 @@ func (x *runner) fnOps(n int) {
 // referenceTree renders what the
 // independent extraction created, in the format of the Lean reference
 // `extract` ("none" when the archive is outside its class: a member placed
-// through a link, a parent that is not a directory, any repetition other than
-// file over file and directory over an existing name).
+// through a link, a hard link whose target is spelled through a link, a parent
+// that is not a directory, any repetition other than file over file and
+// directory over an existing name).
 func referenceTree(ms []member, t *otree) (string, bool) {
 	for _, m := range ms {
 		for _, s := range []string{m.Name, m.Link} {
@@ -581,7 +582,7 @@ func referenceTree(ms []member, t *otree) (string, bool) {
 			}
 		}
 	}
-	if len(t.flags.nonWF) > 0 || t.flags.throughLink || t.flags.hardNotPlain {
+	if len(t.flags.nonWF) > 0 || t.flags.throughLink || t.flags.hardNotPlain || t.flags.hardViaLink {
 		return "none", true
 	}
 	for _, o := range t.flags.otherRep {
